@@ -24,11 +24,14 @@ RULE = ('Every DoWhile document shape of the tier (verif/gen/c05_shapes.shapes: 
         'loop-carried binding {none, self, last->first, aggregate->replicated} x import stage {0,1} x binding '
         '{output, ref, +file on the binding, +file on the usage} (+ never-carried second binding, store_flowir_to_disk '
         'on/off, relative/absolute binding spelling; thorough: full product, replicate 1 and 2, digit names, copy '
-        'bindings) is driven for k = 1..K (K = 12 quick, 25 thorough; both cross the 9->10 boundary). After every step '
+        'bindings) is driven for k = 1..K (K = 12 quick, 25 thorough; both cross the 9->10 boundary); additional '
+        'histories interleave restarts (the instance is loaded again with Experiment.experimentFromInstance after '
+        'iterations {2,10} quick; {1}, {9,10}, {11,24} thorough) and the state right after each restart is judged too. '
+        'The quick tier adds 6 seed-rotated shapes of the thorough space to its fixed core. After every step '
         'the complete state is judged: node sets, every instance 0..k (references, command line, predecessors), '
         'placeholders, DoWhile state, stored flowir_instance.yaml, and DataReference.resolve / '
         'true_reference_to_component_id for every outside spelling (8 methods x with/without file x abs/rel) of every '
-        'looped component. A state (shape, k) is non-trivial when k >= 1; distinct = distinct (shape, k). '
+        'looped component. A state (shape, k, restarts so far) is non-trivial when k >= 1; distinct = distinct states. '
         'Excluded (grey zone): non-looped components whose name contains "#", in-loop :loopref references, loopBindings '
         'with :loopref/:loopoutput, bindings whose file is given both on the binding and on the usage, non-aggregating '
         'consumers of replicated looped components outside the loop.')
@@ -37,16 +40,22 @@ ASSUMPTIONS = [
     'does the same and never skips an iteration',
     'working directories and output files of new instances are created by the harness (the controller normally creates '
     'them) at <instance>/stages/stage<N>/<name>; "resolves to instance k" is judged on these paths / file contents',
-    'a shape whose package load or whose FIRST iteration step raises is counted as rejected and not judged (C11 owns '
-    'rejection); an exception at a later step of a shape that was accepted before is judged as a violation',
+    'every enumerated document is valid (only forms used by tests/test_dowhile.py; loopBindings name looped components '
+    'with the method of the inputBinding; a loop-carried producer is never in a later loop stage than its consumer). A '
+    'shape whose package LOAD raises is counted as rejected and not judged (C11 owns rejection; more than 10% rejected '
+    'shapes is a harness error); once the document was loaded, an exception of instantiate_dowhile_next_iteration at any '
+    'step k >= 1 is judged as a violation (iteration k could not be instantiated)',
     'a reference between two looped components means the instance of the same iteration',
     'an outside consumer must (at least) depend on the newest instance of what it references and on every instance for '
     'aggregate references; it may additionally depend on older instances and on condition producers',
     'the return value of instantiate_dowhile_next_iteration is judged against its docstring (names of the new components)',
+    'a workflow loaded again from its instance directory (after iterations were stored with store_flowir_to_disk=True) is '
+    'still "the workflow" of the statement; failures seen only after such a restart carry the sig prefix after-reload:',
 ]
-MC_EXPLANATION = ('states = (document shape, k) pairs, k = number of further iterations instantiated; transitions = calls '
-                  'of the real WorkflowGraph.instantiate_dowhile_next_iteration(document, k, store) on one live '
-                  'WorkflowGraph per shape; every state reached is compared in full with the reference model of the '
+MC_EXPLANATION = ('states = (document shape, k[, restarts]) triples, k = number of further iterations instantiated; '
+                  'transitions = calls of the real WorkflowGraph.instantiate_dowhile_next_iteration(document, k, store) on '
+                  'one live WorkflowGraph per shape, plus restart transitions (Experiment.experimentFromInstance on the '
+                  'instance directory); every state reached is compared in full with the reference model of the '
                   'unrolling (verif/oracles/c05_dowhile.py); traces = shapes whose whole history 0..K ran on the '
                   'implementation.')
 
@@ -84,8 +93,19 @@ class Run:
             raise HarnessError('expected exactly the DoWhile document %s, found %r' % (self.dw_id, list(docs)))
         self.nonloop0 = None
         self.written = set()
+        self.reloaded = 0
 
     # ---------------------------------------------------------------- driver
+    def reload(self):
+        """Second kind of transition: the experiment is loaded again from its instance directory (a restart)."""
+        import experiment.model.data
+        self.exp = experiment.model.data.Experiment.experimentFromInstance(self.root)
+        self.wg = self.exp.experimentGraph
+        self.reloaded += 1
+        docs = self.wg._documents.get(DW_LABEL, {})
+        if list(docs) != [self.dw_id]:
+            raise HarnessError('after reload: expected exactly the DoWhile document %s, found %r' % (self.dw_id, list(docs)))
+
     def step(self, k):
         doc = self.wg._documents[DW_LABEL][self.dw_id]['document']
         return self.wg.instantiate_dowhile_next_iteration(doc, k, self.shape['store'])
@@ -110,8 +130,11 @@ class Run:
     # ---------------------------------------------------------------- observation + judgement
     def fail(self, k, sig, why, observed):
         self.nfail += 1
+        if self.reloaded:
+            sig = 'after-reload:' + sig
         self.col.outcome('FAIL:' + sig)
-        self.col.fail({'shape': self.shape, 'k': k}, '[%s k=%d] %s' % (self.shape['label'], k, why), observed, sig=sig)
+        self.col.fail({'shape': self.shape, 'k': k, 'reloaded': self.reloaded},
+                      '[%s k=%d%s] %s' % (self.shape['label'], k, ' after reload' if self.reloaded else '', why), observed, sig=sig)
 
     def check(self, k, returned_new):
         import experiment.model.graph as G
@@ -209,6 +232,21 @@ class Run:
             if set(rep) != w['represents'] or len(rep) != len(set(rep)):
                 self.fail(k, 'placeholder:represents', 'placeholder %s represents %r, expected the instances 0..%d' % (pid, sorted(rep), k),
                           {'placeholder': pid, 'got': sorted(rep)})
+        # 4b. the helper of the front-end that maps a placeholder to its newest instance (anchored mechanism)
+        import experiment.model.frontends.flowir as F
+        helper = getattr(F, 'map_placeholder_id_to_iteration', None)
+        if helper is not None:
+            known_ids = set(wg._concrete.get_component_identifiers(True))
+            for pid, w in sorted(want['placeholders'].items()):
+                stage, base = int(pid.split('.', 1)[0][5:]), pid.split('.', 1)[1]
+                try:
+                    got = helper((stage, base), [], known_ids)
+                except Exception as e:
+                    got = repr(e)
+                got_id = 'stage%d.%s' % tuple(got) if isinstance(got, tuple) and len(got) == 2 else got
+                if got_id != w['latest']:
+                    self.fail(k, 'helper:map-placeholder-latest', 'map_placeholder_id_to_iteration(%r) is %r, expected %r' % ((stage, base), got_id, w['latest']),
+                              {'placeholder': pid, 'got': got_id, 'got_iters': _iters([got_id]), 'want_iters': [k]})
         # 5. state
         st = wg._documents[DW_LABEL][self.dw_id].get('state') or {}
         if st.get('currentIteration') != k:
@@ -273,10 +311,28 @@ class Run:
                       {'missing': sorted(want['unreplicated'] - stored), 'unexpected': sorted(stored - want['unreplicated'])})
 
 
-def run_shape(col, shape, K, only_k=None):
-    """Drives one shape through k = 0..K; judges every state (or only state `only_k`)."""
+def run_shape(col, shape, K, only=None):
+    """Drives one shape through k = 0..K (reloading the instance after every k listed in shape['reloads']); judges
+    every state, or only the state `only` = (k, number of reloads done)."""
     from verif.gen.pkg import scratch_dir
     sid = case_id(shape)
+    reloads = set(shape.get('reloads') or [])
+
+    def judge(run, k, new):
+        if only is not None and (k, run.reloaded) != tuple(only):
+            # outputs of earlier instances must still exist for the judged state
+            run.write_outputs(M.expected_state(shape, k))
+            if run.nonloop0 is None:
+                run.nonloop0 = {n for n in run.wg.graph.nodes if '#' not in n}
+            return
+        col.evaluated()
+        key = '%s:%d%s' % (sid, k, ':r%d' % run.reloaded if run.reloaded else '')
+        col.state(key)
+        if k >= 1:
+            col.nontriv(key)
+        if run.check(k, new) == 0:
+            col.outcome(('ok-after-reload:' if run.reloaded else 'ok:') + ('k=0' if k == 0 else ('1<=k<=9' if k <= 9 else 'k>=10')))
+
     with scratch_dir('c05-') as d:
         try:
             run = Run(col, shape, d)
@@ -296,29 +352,32 @@ def run_shape(col, shape, K, only_k=None):
                     col.transitions += 1
                 except Exception as e:
                     col.evaluated()
-                    if k == 1:
-                        col.outcome('step1-rejected:%s' % type(e).__name__)
-                        col.count('shapes_rejected_at_step1')
-                        col.payload.append(('rejected', shape['label'], repr(e)[:300]))
-                    else:
-                        col.outcome('FAIL:step-raised')
-                        col.fail({'shape': shape, 'k': k}, '[%s k=%d] instantiate_dowhile_next_iteration raised %r although '
-                                 'iterations 1..%d were instantiated' % (shape['label'], k, e, k - 1),
-                                 {'error': repr(e)[:500]}, sig='step-raised:%s' % type(e).__name__)
+                    col.outcome('FAIL:step-raised')
+                    col.fail({'shape': shape, 'k': k, 'reloaded': run.reloaded},
+                             '[%s k=%d] instantiate_dowhile_next_iteration raised %r although the document was loaded '
+                             'and iterations 0..%d exist' % (shape['label'], k, e, k - 1),
+                             {'error': repr(e)[:500]}, sig='%sstep-raised:%s' % ('after-reload:' if run.reloaded else '', type(e).__name__))
                     return
-            if only_k is not None and k != only_k:
-                # outputs of earlier instances must still exist for the judged state
-                run.write_outputs(M.expected_state(shape, k))
-                if run.nonloop0 is None:
-                    run.nonloop0 = {n for n in run.wg.graph.nodes if '#' not in n}
-                continue
-            col.evaluated()
-            col.state('%s:%d' % (sid, k))
-            if k >= 1:
-                col.nontriv('%s:%d' % (sid, k))
-            n = run.check(k, new)
-            if n == 0:
-                col.outcome('ok:k=0' if k == 0 else ('ok:1<=k<=9' if k <= 9 else 'ok:k>=10'))
+            judge(run, k, new)
+            if only is not None and (k, run.reloaded) == tuple(only):
+                break
+            if k in reloads:
+                try:
+                    run.reload()
+                    col.transitions += 1
+                    col.count('reload_transitions')
+                except HarnessError:
+                    raise
+                except Exception as e:
+                    col.evaluated()
+                    col.outcome('FAIL:reload-raised')
+                    col.fail({'shape': shape, 'k': k, 'reloaded': run.reloaded + 1},
+                             '[%s k=%d] loading the instance again after %d stored iterations raised %r' % (shape['label'], k, k, e),
+                             {'error': repr(e)[:500]}, sig='after-reload:reload-raised:%s' % type(e).__name__)
+                    return
+                judge(run, k, None)
+                if only is not None and (k, run.reloaded) == tuple(only):
+                    break
         col.traces += 1
 
 
@@ -339,7 +398,7 @@ def tier_items(thorough, seed):
         # seed-rotated extra stratum: a few shapes of the thorough space (subset of what thorough covers)
         keys = {repr(s) for s in core}
         rest = [s for s in GEN.shapes(True) if repr(s) not in keys]
-        n = 8
+        n = 6
         if rest:
             start = (seed * n) % len(rest)
             extra = [((rest + rest)[start + j], K) for j in range(min(n, len(rest)))]
@@ -352,19 +411,28 @@ def run(ctx):
     ctx.count('shapes_seed_stratum', len(extra))
     # longest histories first (better packing)
     allitems = sorted(items + extra, key=lambda it: -len(it[0]['comps']))
+    try:        # imported once in the parent so that the forked workers do not pay for it again
+        import experiment.model.data  # noqa: F401
+        import experiment.model.graph  # noqa: F401
+    except Exception as e:
+        raise HarnessError('cannot import the code under check: %r' % e)
     ctx.pmap('verif.props.c05', 'worker', allitems, maxtasksperchild=8)
     rejected = [p for p in ctx.payload if p and p[0] == 'rejected']
-    if len(rejected) * 2 > len(allitems):
-        raise HarnessError('%d of %d shapes were rejected by the loader / first step, e.g. %r' % (len(rejected), len(allitems), rejected[:3]))
+    if len(rejected) * 10 > len(allitems):
+        raise HarnessError('%d of %d shapes were rejected by the loader, e.g. %r' % (len(rejected), len(allitems), rejected[:3]))
     for r in rejected[:5]:
         ctx.note('rejected shape %s: %s' % (r[1], r[2]))
 
 
 def replay(ctx, case):
-    run_shape(ctx, case['shape'], case['k'], only_k=case['k'])
+    run_shape(ctx, case['shape'], case['k'], only=(case['k'], int(case.get('reloaded') or 0)))
 
 
 # ------------------------------------------------------------------ known-finding selectors
+def _strip(sig):
+    return sig[len('after-reload:'):] if sig.startswith('after-reload:') else sig
+
+
 def _lexi_max(k):
     return int(max((str(i) for i in range(k + 1))))
 
@@ -373,9 +441,10 @@ def _sel_latest_lexicographic(f):
     """placeholder 'latest' (and everything derived from it) is the lexicographic maximum of the iteration numbers"""
     k = f['case'].get('k', 0)
     ob = f.get('observed') or {}
+    sig = _strip(f['sig'])
     if k < 10 or _lexi_max(k) == k:
         return False
-    if f['sig'] == 'placeholder:latest' or f['sig'] == 'outside:component-id' or f['sig'].startswith('outside:resolve:'):
+    if sig in ('placeholder:latest', 'outside:component-id', 'helper:map-placeholder-latest') or sig.startswith('outside:resolve:'):
         return ob.get('want_iters') == [k] and ob.get('got_iters') == [_lexi_max(k)]
     return False
 
@@ -384,7 +453,7 @@ def _sel_aggregate_lexicographic(f):
     """:loopref / :loopoutput list the instances sorted by the iteration number as a string"""
     k = f['case'].get('k', 0)
     ob = f.get('observed') or {}
-    if k < 10 or not f['sig'].startswith('aggregate:order:'):
+    if k < 10 or not _strip(f['sig']).startswith('aggregate:order:'):
         return False
     want = list(range(k + 1))
     return ob.get('want_iters') == want and ob.get('got_iters') == sorted(want, key=str)
